@@ -7,6 +7,7 @@ import (
 	"github.com/nyaruka/goflow/envs"
 	"github.com/nyaruka/goflow/excellent/types"
 	"github.com/nyaruka/goflow/flows"
+	"github.com/nyaruka/goflow/flows/actions"
 	"github.com/nyaruka/goflow/flows/definition"
 	"github.com/nyaruka/goflow/flows/events"
 	"github.com/nyaruka/goflow/flows/routers"
@@ -312,4 +313,76 @@ func VerifC07_RepeatedResult() {
 	zzverif.Assert(res.Category == c2 && res.Value == v2, "the saved result is not the one the last routing prescribes")
 	zzverif.Assert(res.Input == "second operand", "the saved result does not have the last routing's operand as input")
 	zzverif.Assert(res.NodeUUID == verifNodeUUID(0, 1), "the saved result does not name the node that saved it last")
+}
+
+// VerifC07_ParentRouter: a parent run paused on a node that enters a child
+// flow and then routes with a switch router (no wait of its own); the child
+// waits for a message with a timeout and ends when resumed — by a message or
+// by the timeout. The parent's router is then evaluated in the same sprint as
+// the child's: whatever resumed the child, the parent leaves by the exit of
+// the category of its first matching case, else the default's, and saves
+// that category; only the child's router — the one whose wait timed out —
+// takes its timeout category.
+// cover: child-timed-out, child-got-message, parent-case, parent-default
+func VerifC07_ParentRouter() {
+	sa := verifNewAssets()
+	pcats := []flows.Category{routers.NewCategory("c0", "Red", "e0"), routers.NewCategory("cd", "Other", "ed")}
+	prouter := routers.NewSwitch(nil, "Color", pcats, "x", []*routers.Case{routers.NewCase("k0", "verif_rec_test", []string{"arg0"}, "c0")}, "cd")
+	p0 := definition.NewNode("f0n0", []flows.Action{actions.NewEnterFlow("a0", assets.NewFlowReference(verifFlowUUID(1), "F1"), false)}, prouter,
+		[]flows.Exit{definition.NewExit("e0", "f0n1"), definition.NewExit("ed", "f0n1")})
+	p1 := definition.NewNode("f0n1", nil, nil, []flows.Exit{definition.NewExit("f0n1e", "")})
+	f0, err := definition.NewFlow(verifFlowUUID(0), "F0", "eng", flows.FlowTypeMessaging, 1, 10, definition.NewLocalization(), []flows.Node{p0, p1}, nil, nil)
+	zzverif.Assert(err == nil, "setup: parent flow did not validate")
+	ccats := []flows.Category{routers.NewCategory("xd", "All", "xe"), routers.NewCategory("xt", "No Response", "xte")}
+	crouter := routers.NewSwitch(waits.NewMsgWait(waits.NewTimeout(60, "xt"), nil), "Reply", ccats, "@input.text", nil, "xd")
+	c0 := definition.NewNode("f1n0", nil, crouter, []flows.Exit{definition.NewExit("xe", ""), definition.NewExit("xte", "")})
+	f1, err := definition.NewFlow(verifFlowUUID(1), "F1", "eng", flows.FlowTypeMessaging, 1, 10, definition.NewLocalization(), []flows.Node{c0}, nil, nil)
+	zzverif.Assert(err == nil, "setup: child flow did not validate")
+	sa.add(f0)
+	sa.add(f1)
+
+	verifTestCalls = nil
+	sess, _, err := verifEngine(10, 10).NewSession(sa, verifManualTrigger(sa, verifContact(sa)))
+	zzverif.Assert(err == nil && sess.Status() == flows.SessionStatusWaiting, "setup: session not waiting in the child")
+	s := sess.(*session)
+	timeout := zzverif.Choice("resume-is-timeout", 2) == 1
+	var sp flows.Sprint
+	if timeout {
+		zzverif.Cover("child-timed-out")
+		sp, err = s.Resume(verifResume(1))
+	} else {
+		zzverif.Cover("child-got-message")
+		sp, err = s.Resume(verifResumeText("hi"))
+	}
+	zzverif.Assert(err == nil, "resume returned an error")
+	parent, child := s.runs[0], s.runs[1]
+	// the child: its own wait's category
+	wantChild := flows.ExitUUID("xe")
+	if timeout {
+		wantChild = "xte"
+	}
+	zzverif.Assert(child.Status() == flows.RunStatusCompleted && child.Path()[0].ExitUUID() == wantChild, "the child's router did not take the exit its resume prescribes")
+	// the parent: its cases, then its default
+	zzverif.Assert(len(verifTestCalls) == 1, "the parent's case was not tested exactly once")
+	wantExit, wantName, wantValue := flows.ExitUUID("ed"), "Other", "x"
+	if verifTestCalls[0].outcome == 1 {
+		zzverif.Cover("parent-case")
+		wantExit, wantName, wantValue = "e0", "Red", verifTestCalls[0].match
+	} else {
+		zzverif.Cover("parent-default")
+	}
+	zzverif.Assert(parent.Status() == flows.RunStatusCompleted && s.status == flows.SessionStatusCompleted, "the parent run did not complete after its child ended")
+	zzverif.Assert(parent.Path()[0].ExitUUID() == wantExit, "the parent's router left by an exit other than the selected category's")
+	res := parent.Results().Get("color")
+	zzverif.Assert(res != nil && res.Category == wantName && res.Value == wantValue && res.Input == "x", "the parent's saved result does not carry the selected category, match and operand")
+	var seg flows.Segment
+	for _, sg := range sp.Segments() {
+		if sg.Flow().UUID() == verifFlowUUID(0) {
+			seg = sg
+		}
+	}
+	zzverif.Assert(seg != nil && seg.Exit().UUID() == wantExit && seg.Operand() == "x" && seg.Destination().UUID() == "f0n1", "no logged segment for the parent's routing, or it disagrees with the exit taken")
+	// (last: everything else about the routing has been checked by now)
+	zzverif.Known("C07-parent-segment-node", true)
+	zzverif.Assert(seg.Node().UUID() == "f0n0", "the segment logged for the routing of a parent run resumed after its child names a node of the child's flow")
 }
